@@ -32,15 +32,18 @@ ASSUMPTIONS = [
     "a bulk item counts as failed under Elasticsearch's notion (it carries an `error`) or under Rally's documented per-item criterion "
     "(status > 299 or _shards.failed > 0); where the two notions differ the oracle only demands that each path follows one of them and that both paths agree",
     "success-count may be undetermined (None) on the fast path when the unit is not docs and no error is reported (docs/track.rst)",
-    "termination rules taken from docs/track.rst: at most `pages` pages; a paginated search stops when hits/size pages were read, "
-    "a scroll stops at an empty page, a composite-agg stops when no after_key is returned",
+    "termination is judged only as far as it follows from extracted values and docs/track.rst: never more than `pages` pages; a paginated search does not stop "
+    "while hits/size says results remain and issues at most one request after that; a scroll stops at an empty page and may stop once all announced hits were read; "
+    "a composite-agg goes on exactly while an after_key is returned",
+    "classes: a search page is 'canonical' when, judged from its text, no other \"sort\" token follows the last hit's sort key, no string sort value of the last hit "
+    "holds ']' and the key is directly followed by ':'; the classifier cannot match such a page, so the canonical class (sa:/ca:/bulk:canonical) must be violation-free",
     "the stub client serves the generated pages in order (an empty page beyond them) - no virtual clock, no timing in any verdict",
 ]
 REQUIRED_CLAUSES = [
     "parse-props", "parse-lists", "parse-objects",
     "cursor-is-last-sort", "extractor-props", "next-request-cursor", "pit-id-propagated",
     "after-key", "next-request-after",
-    "page-accounting", "hits-total", "took-sum", "timed-out-any", "pages-retrieved",
+    "paginated-run", "composite-run", "scroll-run", "page-accounting", "hits-total", "took-sum", "timed-out-any", "pages-retrieved",
     "scroll-id", "scroll-stops-on-empty-page", "search-detailed",
     "bulk-run", "bulk-counts-vs-items", "bulk-paths-agree", "bulk-took", "bulk-ops-histogram", "bulk-error-description",
 ]
@@ -49,11 +52,11 @@ REQUIRED_FEATURES = {
     "sa:cfg:inner-hits-sorted": 20, "sa:cfg:top-hits-sorted": 20, "sa:cfg:source-sort-shuffled": 20, "sa:cfg:value-token": 20,
     "ca:canonical": 200, "ca:after-key-null": 50, "ca:float": 50, "ca:nested-path": 50,
     "bulk:canonical": 300, "bulk:errors": 100, "bulk:errors-false-but-failed-item": 50, "bulk:error-string": 20, "bulk:unit-not-docs": 20,
-    "scroll:es6-total": 10, "layout:pretty": 100, "layout:compact": 1000, "order:shuffled": 300, "raw-utf8": 300,
+    "scroll:es6-total": 10, "big-response": 5, "layout:pretty": 100, "layout:compact": 1000, "order:shuffled": 300, "raw-utf8": 300,
 }
 BUDGET = {
-    "quick": {"cases": 128000, "seconds": 40},
-    "thorough": {"cases": 1600000, "seconds": 540},
+    "quick": {"cases": 96000, "seconds": 32},
+    "thorough": {"cases": 4800000, "seconds": 540},
 }
 
 CURSOR_CLAUSES = ("cursor-is-last-sort", "next-request-cursor", "paginated-run")
@@ -308,6 +311,7 @@ def check_paginated(sink, case):
     res = outcome_of(lambda: run(_run_query(stub, params, "open-pit" if pit else None, P.get("pit0"))))
     n = len(stub.requests)
     served = docs[:n] + [json.loads(FILLER_SEARCH)] * max(0, n - len(docs))
+    sink.clause("paginated-run")
     if "exception" in res:
         k = min(n, len(pages)) - 1
         has, exp = ref_last_sort(docs[k]) if k >= 0 else (False, None)
@@ -331,9 +335,9 @@ def check_paginated(sink, case):
     sink.clause("pages-retrieved")
     tv = total0[0]
     limit = 10**9 if P["pages"] == "all" else int(P["pages"])
-    expect_n = min(limit, max(1, -(-tv // size)))
-    if n != expect_n:
-        add("pages-retrieved", f"{n} pages retrieved; hits={tv}, size={size}, pages={P['pages']} => {expect_n}", {"expected": expect_n, "outcome": {"value": n}})
+    need = min(limit, max(1, -(-tv // size)))  # not fewer (results remain), not beyond `pages`, at most one request after the results are exhausted
+    if not (need <= n <= min(limit, need + 1)):
+        add("pages-retrieved", f"{n} pages retrieved; hits={tv}, size={size}, pages={P['pages']} => {need}", {"expected": need, "outcome": {"value": n}})
     return problems
 
 
@@ -394,6 +398,7 @@ def check_composite(sink, case):
     res = outcome_of(lambda: run(_run_query(stub, params, "open-pit" if pit else None, P.get("pit0"))))
     n = len(stub.requests)
     served = docs[:n] + [json.loads(filler)] * max(0, n - len(docs))
+    sink.clause("composite-run")
     if "exception" in res:
         k = min(n, len(pages)) - 1
         add("composite-run", f"the composite-agg run failed on page {k} with {res['exception']}: {res['detail']}", {"page": k, "expected": None, "outcome": res})
@@ -438,6 +443,7 @@ def check_scroll(sink, case):
     res = outcome_of(lambda: run(_run_query(stub, params, None, None)))
     n = len(stub.requests)
     served = docs[:n] + [json.loads(FILLER_SEARCH)] * max(0, n - len(docs))
+    sink.clause("scroll-run")
     if "exception" in res:
         add("scroll-run", f"the scroll search failed after {n} requests with {res['exception']}: {res['detail']}", {"page": n - 1, "expected": None, "outcome": res})
         return problems
@@ -451,15 +457,12 @@ def check_scroll(sink, case):
     sink.clause("scroll-stops-on-empty-page")
     limit = 10**9 if P["pages"] == "all" else int(P["pages"])
     tv = ref_total(docs[0])[0]
+    seen_hits = 0
     for k in range(n):
         last = k == n - 1
-        if k == 0:
-            may_stop = tv == 0 or tv < size or limit == 1
-            must_stop = limit == 1
-        else:
-            empty = len(served[k]["hits"]["hits"]) == 0
-            may_stop = empty or k + 1 >= limit
-            must_stop = may_stop
+        seen_hits += len(served[k]["hits"]["hits"])
+        must_stop = k + 1 >= limit or (k > 0 and len(served[k]["hits"]["hits"]) == 0)
+        may_stop = must_stop or seen_hits >= tv  # everything the first page announced has been read
         if (last and not may_stop) or (not last and must_stop):
             add("scroll-stops-on-empty-page", f"page {k} of {n}: hits.hits has {len(served[k]['hits']['hits'])} entries, pages={P['pages']}; the runner {'stopped' if last else 'went on'}", {"page": k, "expected": None, "outcome": {"value": n}})
             break
@@ -666,7 +669,9 @@ def render_case(case, docs):
     return case
 
 
-def gen_case(rng):
+def gen_case(rng, big_p=0.003):
+    """big_p: share of cases whose responses exceed ijson's 64 KiB read buffer (clean profiles only)."""
+    big = rng.random() < big_p
     q = rng.random()
     kind = "paginated-search" if q < 0.34 else "composite-agg" if q < 0.54 else "bulk" if q < 0.76 else "scroll-search" if q < 0.86 else "search" if q < 0.90 else "parse"
     case = {"kind": kind, "layout": pick_layout(rng), "ascii": rng.random() < 0.5, "order": "shuffled" if rng.random() < 0.3 else "canonical", "params": {}, "hints": []}
@@ -675,6 +680,8 @@ def gen_case(rng):
     if kind == "paginated-search":
         prof = rng.choice(["clean", "clean", "clean", "clean", "clean", "bracket", "later", "later", "src-sort", "mixed"])
         cfg = G.Cfg(es6=rng.random() < 0.15, aggs=rng.random() < 0.3)
+        if big:
+            prof = "clean"
         if prof == "clean":
             cfg.inner_hits, cfg.top_hits = rng.choice([0, 0, 1]), rng.choice([0, 0, 1])
             cfg.src_sort = case["order"] == "canonical" and rng.random() < 0.5  # harmless before the hit's own sort
@@ -709,6 +716,8 @@ def gen_case(rng):
             cfg.mq_sort = rng.random() < 0.2
         size = rng.choice([1, 2, 2, 3])
         npages = rng.choice([1, 2, 2, 3])
+        if big:
+            size, npages = rng.choice([400, 600]), rng.choice([1, 2])
         lastn = rng.randint(1, size)
         total = size * (npages - 1) + lastn
         P.update(size=size, pit=rng.random() < 0.4, pages=rng.choice(["all", "all", npages, max(1, npages - 1), npages + 2]))
@@ -734,6 +743,8 @@ def gen_case(rng):
         cfg = G.Cfg(es6=rng.random() < 0.3, aggs=rng.random() < 0.2, src_sort=rng.random() < 0.3)
         size = rng.choice([1, 2, 3])
         npages = rng.choice([1, 2, 3])
+        if big:
+            size, npages = rng.choice([400, 600]), 2
         lens = [size] * (npages - 1) + [rng.randint(0, size)]
         if rng.random() < 0.5 and lens[-1] > 0:
             lens.append(0)
@@ -748,7 +759,7 @@ def gen_case(rng):
         docs.append(G.gen_search_page(rng, cfg, nh, rng.choice([nh, 10000, 12345]), sorted_hits=rng.random() < 0.5))
     elif kind == "bulk":
         prof = rng.choice(["ok", "ok", "ok", "errors", "errors", "errors-mixed", "hidden-shard-fail", "hidden-not-found"])
-        d = G.gen_bulk_response(rng, prof)
+        d = G.gen_bulk_response(rng, "ok" if big and rng.random() < 0.6 else prof, n=rng.choice([500, 1000]) if big else None)
         docs.append(d)
         unit = "docs" if rng.random() < 0.85 else rng.choice(["ops", "MB"])
         P.update(unit=unit, bulk_size=len(d["items"]) if unit == "docs" else rng.randint(1, 50), profile=prof)
@@ -797,8 +808,10 @@ def features_of(case):
     f = {f"layout:{'pretty' if case['layout'] in ('pretty', 'jackson') else 'compact' if case['layout'] == 'compact' else 'spaced'}", f"kind:{case['kind']}"}
     if case["order"] == "shuffled":
         f.add("order:shuffled")
-    if not case["ascii"] and any(ord(c) > 127 for p in case["pages"] for c in p["text"]):
+    if not case["ascii"] and any(not p["text"].isascii() for p in case["pages"]):
         f.add("raw-utf8")
+    if any(len(p["text"]) > 65536 for p in case["pages"]):
+        f.add("big-response")
     kind, P = case["kind"], case["params"]
     docs = [loads(p) for p in case["pages"]]
     nontrivial = False
@@ -909,6 +922,11 @@ def shrink(case, docs, target, budget=250):
             ks = kinds(cand)
             if ks is not None and target in ks and ks <= base:
                 best, best_docs = cand, cand_docs
+    if best["layout"] != "compact" or not best["ascii"]:  # the plainest rendering that still shows it
+        cand = render_case(dict({k: v for k, v in best.items() if k != "pages"}, layout="compact", ascii=True), best_docs)
+        ks = kinds(cand)
+        if ks is not None and target in ks and ks <= base:
+            best = cand
     changed = True
     while changed and budget > 0:
         changed = False
@@ -948,7 +966,7 @@ _SEEN = {}
 
 def one_case(ctx, rng, explicit=None):
     if explicit is None:
-        case, docs = gen_case(rng)
+        case, docs = gen_case(rng, big_p=0.01 if ctx.tier == "thorough" else 0.004)
     else:
         case, docs = explicit, None
     problems = check_case(ctx, case)
@@ -969,7 +987,7 @@ def one_case(ctx, rng, explicit=None):
             ctx.distinct("finding-mechanisms", key)
         seen = _SEEN.get((clause, key), 0)
         _SEEN[(clause, key)] = seen + 1
-        if docs is not None and seen < 3:
+        if docs is not None and seen < 3 and sum(len(p["text"]) for p in case["pages"]) < 30000:
             small = shrink(case, docs, (clause, key))
             if small is not case:
                 for c2, m2, e2 in check_case(Null(), small):
@@ -1087,7 +1105,7 @@ def replay(ctx, rec):
 
 
 MANIFEST = {
-    "text": "Exploration: ~5*10^4 (quick) / ~10^6 (thorough) generated Elasticsearch-shaped responses (bulk, search, scroll, composite-agg pages; hostile strings, "
+    "text": "Exploration: ~1.5*10^5 (quick) / ~10^6 or more (thorough) generated Elasticsearch-shaped responses (bulk, search, scroll, composite-agg pages; hostile strings, "
     "compact / pretty / Jackson layouts, canonical and shuffled key order) are fed to the real runner.parse, BulkIndex fast and detailed path, SearchAfterExtractor, "
     "CompositeAggExtractor and the paginated Query runner (end to end against a recording stub client); every extracted value, cursor, count and page/hits/took/timed_out "
     "figure is compared with json.loads of the same bytes. Holds on the responses produced, not beyond; the canonical ES shape must be violation-free, "
